@@ -240,6 +240,15 @@ func (e *Engine) valEq(x, y Value, t types.Type) *smt.Term {
 		if !ok {
 			return e.ctx.False
 		}
+		if a.Idx != nil || b.Idx != nil {
+			if a.Idx != nil && b.Idx != nil && a.Arr == b.Arr && a.Off == b.Off {
+				return e.ctx.Eq(a.Idx, b.Idx)
+			}
+			if a.Idx == nil && a.Obj == nil || b.Idx == nil && b.Obj == nil {
+				return e.ctx.False // element pointer vs nil
+			}
+			e.unsupported("comparison of a symbolic element pointer")
+		}
 		return e.ctx.Bool(a.Obj == b.Obj)
 	case *MapObj:
 		b, _ := y.(*MapObj)
